@@ -89,8 +89,19 @@ def gen(rng, i, tier):
     const = rng.random() < 0.12
     cv = val()
     tab = {"vi": vis, "io": ios, z: [[cv if const else val() for _ in ios] for _ in vis]}
+    # axis presentation variants: the vi axis written with negative values (tables for negative rails) and /
+    # or in descending order - the sign of the coordinates is ignored and rows carry their own vi value
+    form = rng.choice(["plain", "plain", "neg_vi", "desc_vi", "neg_desc_vi"])
+    if len(vis) > 1 or form == "neg_vi":
+        if "desc" in form:
+            tab["vi"] = tab["vi"][::-1]
+            tab[z] = tab[z][::-1]
+        if "neg" in form:
+            tab["vi"] = [-v for v in tab["vi"]]
+    else:
+        form = "plain"
     return {"kind": kind, "z": z, "table": tab, "qseed": rng.randrange(1 << 30), "const": const,
-            "nq": 40 if tier == "quick" else 60}
+            "nq": 40 if tier == "quick" else 60, "axis_form": form}
 
 
 def directed():
@@ -191,13 +202,22 @@ def queries(rng, tab, n):
     return out
 
 
+def normalised(tab, z):
+    """The table as the property reads it: magnitudes, rows in ascending |vi| order."""
+    vis = [abs(v) for v in tab["vi"]]
+    order = sorted(range(len(vis)), key=lambda k: vis[k])
+    return {"vi": [vis[k] for k in order], "io": [abs(v) for v in tab["io"]], z: [[abs(v) for v in tab[z][k]] for k in order]}
+
+
 def run(ctx, case):
     import random
 
     ns = loader.load()
     rng = random.Random(case["qseed"])
-    kind, z, tab = case["kind"], case["z"], case["table"]
-    st, comp = H.call(S.make_comp, ns, _c("X", kind, probe_spec(kind, z, tab, 5.0, 1.0)["comps"][1]["args"], ["S"]))
+    kind, z, raw_tab = case["kind"], case["z"], case["table"]
+    tab = normalised(raw_tab, z)
+    ctx.see("axis_forms", case.get("axis_form", "plain"))
+    st, comp = H.call(S.make_comp, ns, _c("X", kind, probe_spec(kind, z, raw_tab, 5.0, 1.0)["comps"][1]["args"], ["S"]))
     if st != "ok":
         raise RuntimeError("well-conditioned table rejected: %s" % H.exc_sig(comp))
     qs = queries(rng, tab, case["nq"])
@@ -206,7 +226,7 @@ def run(ctx, case):
     for io, vi, a, b in qs:
         neg = rng.random() < 0.3
         V = -vi if neg else vi
-        spec = probe_spec(kind, z, tab, V, io)
+        spec = probe_spec(kind, z, raw_tab, V, io)
         st, sysobj = H.try_build(spec)
         if st != "ok":
             raise RuntimeError("probe rejected: %s" % H.exc_sig(sysobj))
@@ -215,11 +235,16 @@ def run(ctx, case):
         st, df = H.solve(sysobj)
         _log["on"] = False
         det = {"kind": kind, "param": z, "io": io, "vi": vi, "negative_supply": neg, "where": (a, b)}
-        if st != "ok":
-            # an unphysical operating point (drop > supply) is legitimate for vdrop tables far outside
-            ctx.count("probe", "raised " + type(df).__name__)
-            continue
         e = expected(tab, z, io, vi)
+        if st != "ok":
+            # an unphysical operating point (drop >= supply) is legitimate for vdrop tables; anything else means
+            # the parameter lookup itself went wrong (e.g. NaN keeps the solver from converging)
+            worst = e[1] if e[0] == "exact" else e[2]
+            drop = worst * (2.0 if kind == "Rectifier" else 1.0)
+            legit = z == "vdrop" and drop >= 0.999 * vi and isinstance(df, ValueError)
+            ctx.count("probe", ("legitimately " if legit else "") + "raised " + type(df).__name__)
+            ctx.check("interp.not_nan", legit, dict(det, probe_raised=H.exc_sig(df), expected=list(e), table=raw_tab))
+            continue
         scale = max(max(abs(v) for v in row) for row in tab[z])
         calls = [c for c in _log["calls"] if c[0] == io and c[1] == vi]
         if not calls:
@@ -245,7 +270,7 @@ def run(ctx, case):
                   dict(det, recovered_from_table=rec, interp_returned=val, row=M._rowvals(row)))
         # sign of the lookup arguments is ignored: same magnitude results on the mirrored supply
         if rng.random() < 0.25:
-            spec2 = probe_spec(kind, z, tab, -V, io)
+            spec2 = probe_spec(kind, z, raw_tab, -V, io)
             st2, s2 = H.try_build(spec2)
             st2, df2 = H.solve(s2)
             if st2 == "ok":
@@ -260,7 +285,7 @@ def run(ctx, case):
     if case["const"]:
         cval = tab[z][0][0]
         io, vi = qs[0][0], qs[0][1]
-        st1, a1 = H.try_build(probe_spec(kind, z, tab, vi, io))
+        st1, a1 = H.try_build(probe_spec(kind, z, raw_tab, vi, io))
         st2, a2 = H.try_build(probe_spec(kind, z, cval, vi, io))
         s1, d1 = H.solve(a1)
         s2, d2 = H.solve(a2)
